@@ -243,8 +243,35 @@ def suite_float(ctx):
         ctx.count(key=('float', gi.shape_cells, go.shape_cells))
     # Model.interpolate_to_grid: all properties, log flag from the mapping,
     # incl. nearly homogeneous properties
+    # the transpose must belong to the two grids at hand, also when the same
+    # grid instance was used with another model grid before (no stale state)
+    gcomp = emg3d.TensorMesh([dy(3), dy(2), dy(4)], (0.5, 0.25, 0))
+    for rep in range(3):
+        hm = [dy(2), dy(3), dy(2)]          # same cell count, other nodes
+        gmod = emg3d.TensorMesh(hm, (float(rep)/4, 0, 0.5))
+        v = rng.uniform(0.5, 2.0, gmod.shape_cells)
+        wv = rng.standard_normal((3, *gcomp.shape_cells))
+        try:
+            with warnings.catch_warnings():
+                warnings.simplefilter('ignore')
+                pv = maps.interpolate(gmod, v, gcomp, method='volume',
+                                      log=False)
+                o3 = np.zeros((3, *gmod.shape_cells), order='F')
+                maps._interp_volume_average_adj(o3, gmod, wv, gcomp)
+            lhs, rhs = float(np.sum(pv*wv[1])), float(np.sum(v*o3[1]))
+            if abs(lhs-rhs) > 1e-11*(abs(lhs)+abs(rhs)+1e-300):
+                ctx.violation(
+                    'adjoint-not-transpose',
+                    f'call #{rep+1} with the same computational grid and '
+                    f'another model grid of equal cell count: <P v, w> = '
+                    f'{lhs} but <v, P^T w> = {rhs}',
+                    {'repetition': rep, 'model_grid_origin': float(rep)/4})
+        except Exception as e:      # noqa
+            bad.append(('adj (repeated) raised', str(e)[:80]))
+        ctx.count(key=('adj-repeat', rep))
     for t, mapping in enumerate(['Conductivity', 'Resistivity',
-                                 'LgResistivity', 'LnConductivity']):
+                                 'LgResistivity', 'LnConductivity',
+                                 'LgConductivity', 'LnResistivity']):
         hi = [dy(4), dy(3), dy(5)]
         gi = emg3d.TensorMesh(hi, (0, 0, 0))
         go = emg3d.TensorMesh([dy(3), dy(4), dy(2)], (0.25, 0, 0.5))
@@ -254,9 +281,17 @@ def suite_float(ctx):
         px = base if log else np.log10(base)
         pz = near if log else np.log10(near)
         model = emg3d.Model(gi, property_x=px, property_z=pz, mapping=mapping)
-        with warnings.catch_warnings():
-            warnings.simplefilter('ignore')
-            new = model.interpolate_to_grid(go)
+        try:
+            with warnings.catch_warnings():
+                warnings.simplefilter('ignore')
+                new = model.interpolate_to_grid(go)
+        except Exception as e:      # noqa
+            ctx.violation(
+                'interpolate_to_grid-differs',
+                f'Model.interpolate_to_grid ({mapping}) raised '
+                f'{type(e).__name__}: {str(e)[:120]}',
+                {'mapping': mapping})
+            continue
         for name, arr in [('property_x', px), ('property_z', pz)]:
             ref = maps.interpolate(gi, arr, go, method='volume', log=log)
             got = getattr(new, name)
